@@ -1596,3 +1596,41 @@ class set_caption:
 
     def on_raise(old, s, a, exc):
         yield "malformed-markup-changes-nothing", both(editor_same(old, s), opt_eq(s._cache_maxcol, old._cache_maxcol), count_ev(s.trace, "_invalidate") == 0)
+
+
+# ------------------------------------------------------------------------------------------------ concrete cross-checks of what is assumed
+
+def _xc_layout_structures():
+    """The assumption about the layout object (EditLayoutProtocol: every segment of `layout()`'s answer satisfies
+    seg_wf), evaluated natively on what urwid's StandardTextLayout really answers for a sample of texts (ASCII, wide,
+    zero-width, newlines, spaces) x widths x wrap modes x alignments; and the same for the translation an Edit with
+    the view following the cursor displays (a line of it shifted)."""
+    import itertools
+
+    import urwid
+    from urwid.text_layout import StandardTextLayout
+
+    lay = StandardTextLayout()
+    bad, n = [], 0
+    texts = ["", "a", "ab cd", "a\nb", "中a中", "áb", "́", "ab\n\n中", "word wrap here", "   ", "a中 ́\nb"]
+
+    def wf(layout, text):
+        return all(bool(both(L2.seg_valid(seg, text), (j == 0 or seg[0] >= 0))) for line in layout for j, seg in enumerate(line))
+
+    for text, width, wrap, align in itertools.product(texts, (1, 2, 3, 5, 8), ("any", "space", "clip", "ellipsis"), ("left", "center", "right")):
+        n += 1
+        tr = lay.layout(text, width, align, wrap)
+        if not wf(tr, text):
+            bad.append((text, width, wrap, align, tr))
+    for text, width, wrap, align in itertools.product(texts, (1, 2, 3, 5), ("any", "space", "clip"), ("left", "right")):
+        for pos in range(len(text) + 1):
+            n += 1
+            e = urwid.Edit("c>", text, multiline=True, wrap=wrap, align=align, edit_pos=pos)
+            e.get_cursor_coords((width,))
+            tr = e.get_line_translation(width)
+            if not wf(tr, e.get_text()[0]):
+                bad.append(("edit", text, width, wrap, align, pos, tr))
+    return "standard-layout-structures-are-well-formed-on-the-sample", not bad, f"{n} layouts; ill-formed: {bad[:2]}"
+
+
+get_line_translation.static_checks = [_xc_layout_structures]
